@@ -80,14 +80,15 @@ macro_rules! block_prop {
                 }
             } else {
                 assert!(dj, "PCBC/IGE: the altered block must decrypt differently");
-                let mut all_later = true;
-                let mut q = J + 1;
-                while q < N {
-                    all_later &= differs(&p1[q * B..q * B + B], &p2[q * B..q * B + B]);
-                    q += 1;
-                }
-                kani::cover!(all_later, "every later block changes");
             }
+            let mut all_later = true;
+            let mut q = J + 1;
+            while q < N {
+                all_later &= differs(&p1[q * B..q * B + B], &p2[q * B..q * B + B]);
+                q += 1;
+            }
+            // PCBC / IGE: "every later block changes" must at least be possible
+            kani::cover!($kind != 2 || all_later, "every later block changes (PCBC/IGE)");
             kani::cover!(true);
         }
     };
